@@ -340,7 +340,31 @@ fn enc_alu(op: u16, dr: u16, sr: u16, imm: Option<i64>, sr2: u16) -> u16 {
     }
 }
 
+/// Assembler keywords are case-insensitive: vary the case of the mnemonic.
+fn recase_mnemonic(rng: &mut Rng, text: &str) -> String {
+    let mut parts = text.splitn(2, ' ');
+    let head = parts.next().unwrap_or("");
+    let head: String = match rng.below(4) {
+        0 => head.to_ascii_uppercase(),
+        1 => head
+            .chars()
+            .map(|c| if rng.coin() { c.to_ascii_uppercase() } else { c.to_ascii_lowercase() })
+            .collect(),
+        _ => head.to_string(),
+    };
+    match parts.next() {
+        Some(rest) => format!("{} {}", head, rest),
+        None => head,
+    }
+}
+
 pub fn gen_eval(rng: &mut Rng, ctx: &Ctx) -> EvalInstr {
+    let mut instr = gen_eval_inner(rng, ctx);
+    instr.text = recase_mnemonic(rng, &instr.text);
+    instr
+}
+
+fn gen_eval_inner(rng: &mut Rng, ctx: &Ctx) -> EvalInstr {
     let r = |rng: &mut Rng| rng.below(8) as u16;
     let sep = |rng: &mut Rng| if rng.coin() { ", " } else { " " };
     match rng.below(20) {
@@ -439,6 +463,10 @@ pub fn gen_eval(rng: &mut Rng, ctx: &Ctx) -> EvalInstr {
                 format!("brnzp {}", label),
                 "rti".to_string(),
                 "halt".to_string(),
+                "br #-2".to_string(),
+                "brnzp #5".to_string(),
+                "brz x9".to_string(),
+                "BRp #-200".to_string(),
                 "trap x25".to_string(),
                 "trap x30".to_string(),
                 "trap x00".to_string(),
